@@ -31,16 +31,25 @@ use vcore::{Check, Stats};
 // The seam: ahash RandomSource owned by the explorer
 // ---------------------------------------------------------------------------------------------
 
-static BASE: AtomicUsize = AtomicUsize::new(0);
-static STRIDE: AtomicUsize = AtomicUsize::new(0);
-static COUNTER: AtomicUsize = AtomicUsize::new(0);
+// The schedule is per thread (a hash collection draws its seed on the thread that creates it), so
+// that the sweeps can run in parallel and every case still sees exactly the seeds of its schedule.
+thread_local! {
+    static BASE: std::cell::Cell<usize> = const { std::cell::Cell::new(0) };
+    static STRIDE: std::cell::Cell<usize> = const { std::cell::Cell::new(0) };
+    static COUNTER: std::cell::Cell<usize> = const { std::cell::Cell::new(0) };
+}
+static SEAM_CALLS: AtomicUsize = AtomicUsize::new(0);
 
 struct Seam;
 impl ahash::random_state::RandomSource for Seam {
     fn gen_hasher_seed(&self) -> usize {
-        let i = COUNTER.fetch_add(1, Ordering::SeqCst);
-        BASE.load(Ordering::SeqCst)
-            .wrapping_add(i.wrapping_mul(STRIDE.load(Ordering::SeqCst)))
+        SEAM_CALLS.fetch_add(1, Ordering::Relaxed);
+        let i = COUNTER.with(|c| {
+            let i = c.get();
+            c.set(i + 1);
+            i
+        });
+        BASE.with(|b| b.get()).wrapping_add(i.wrapping_mul(STRIDE.with(|s| s.get())))
     }
 }
 
@@ -51,9 +60,9 @@ struct Schedule {
 }
 
 fn set_schedule(s: Schedule) {
-    BASE.store(s.base, Ordering::SeqCst);
-    STRIDE.store(s.stride, Ordering::SeqCst);
-    COUNTER.store(0, Ordering::SeqCst);
+    BASE.with(|b| b.set(s.base));
+    STRIDE.with(|b| b.set(s.stride));
+    COUNTER.with(|b| b.set(0));
 }
 
 // ---------------------------------------------------------------------------------------------
@@ -355,6 +364,53 @@ fn w7_multi_source() -> String {
     }
 }
 
+/// w8: `adopt_orphan_extensions()`: extensions of types that are never defined become
+/// definitions at build time, in the order of an internal queue.
+fn w8_adopt_orphans() -> String {
+    let mut b = Schema::builder().adopt_orphan_extensions();
+    for (i, part) in [
+        "type Query { a: Int }",
+        "extend type Zeta { z: Int } extend type Alpha { a: Int } extend enum Mid { M }",
+        "extend input Inp { i: Int } extend type Beta @nodir { b: Int } extend interface Ifc { i: Int }",
+        "type Alpha2 { x: Int } extend union Uni = Alpha2 extend scalar Sc @specifiedBy(url: \"u\")",
+    ]
+    .iter()
+    .enumerate()
+    {
+        b = b.parse(*part, format!("o{i}.graphql"));
+    }
+    match b.build() {
+        Ok(s) => format!("BUILT {}\n{}\n", types_order(&s), s),
+        Err(e) => format!("BUILD-ERR\n{}PARTIAL {}\n{}\n", diag_render(&e.errors), types_order(&e.partial), e.partial),
+    }
+}
+
+/// w9: several diagnostics at one location (field merging across type conditions of an abstract
+/// parent, repeated for three and four object types), where only labels and notes differ.
+fn w9_same_location_diagnostics() -> String {
+    let schema = Schema::parse_and_validate(
+        "interface Pet { name: String } type Cat implements Pet { name: String catName: String } \
+         type Dog implements Pet { name: String dogName: String } type Owl implements Pet { name: String owlName: String } \
+         type Eel implements Pet { name: String eelName: String } type Query { pet: Pet pets: [Pet] }",
+        "pets.graphql",
+    )
+    .expect("pets schema");
+    let docs = [
+        "{ pet { ... on Cat { name: catName } ... on Dog { name: dogName } name } }",
+        "{ pet { name ... on Cat { name: catName } ... on Dog { name: dogName } ... on Owl { name: owlName } } }",
+        "{ pets { ... on Eel { n: eelName } ... on Cat { n: catName } ... on Dog { n: dogName } ... on Owl { n: owlName } n: name } \
+           pet { ... on Cat { x: catName } ... on Dog { x: dogName } x: name } }",
+    ];
+    let mut out = String::new();
+    for (i, d) in docs.iter().enumerate() {
+        match ExecutableDocument::parse_and_validate(&schema, *d, format!("p{i}.graphql")) {
+            Ok(doc) => out.push_str(&format!("VALID {i}\n{doc}\n")),
+            Err(e) => out.push_str(&format!("INVALID {i}\n{}", diag_render(&e.errors))),
+        }
+    }
+    out
+}
+
 /// w5: apollo-smith, bytes → document text (uses std HashMap internally: covered by the
 /// cross-process part; here it rides along).
 fn w5_smith() -> String {
@@ -423,7 +479,117 @@ fn workloads() -> Vec<Workload> {
     w.push(("w5-smith", Box::new(w5_smith)));
     w.push(("w6-valid-exec", Box::new(w6_valid_exec)));
     w.push(("w7-multi-source", Box::new(w7_multi_source)));
+    w.push(("w8-adopt-orphan-extensions", Box::new(w8_adopt_orphans)));
+    w.push(("w9-same-location-diagnostics", Box::new(w9_same_location_diagnostics)));
     w
+}
+
+// ---------------------------------------------------------------------------------------------
+// Sweeps: the schema space of C14 and the (schema, document) space of C17 as workloads. Every
+// case is validated under each schedule of a short list and everything observable is compared.
+// ---------------------------------------------------------------------------------------------
+
+fn sweep_schedules(n: usize) -> Vec<Schedule> {
+    let mut v = vec![Schedule { base: 0, stride: 0 }];
+    for i in 1..n {
+        v.push(if i % 2 == 1 {
+            Schedule { base: i * 7919, stride: 0x9E37_79B9 }
+        } else {
+            Schedule { base: i, stride: 0 }
+        });
+    }
+    v
+}
+
+fn observe_schema(text: &str) -> String {
+    match Schema::parse_and_validate(text, "s.graphql") {
+        Ok(v) => format!("VALID {}\n{}", types_order(&v), v),
+        Err(e) => format!("INVALID\n{}PARTIAL {}\n{}", diag_render(&e.errors), types_order(&e.partial), e.partial),
+    }
+}
+
+fn observe_exec(schema: &Valid<Schema>, text: &str) -> String {
+    match ExecutableDocument::parse_and_validate(schema, text, "q.graphql") {
+        Ok(doc) => format!("VALID\n{doc}"),
+        Err(e) => format!("INVALID\n{}PARTIAL\n{}", diag_render(&e.errors), e.partial),
+    }
+}
+
+/// Runs `obs` under every schedule; reports a difference from the first schedule's output.
+fn under_schedules(scheds: &[Schedule], case: &dyn Fn(Schedule) -> Value, sig: &str, size: u64, obs: &dyn Fn() -> String, st: &mut Stats) {
+    st.states += 1;
+    set_schedule(scheds[0]);
+    let reference = match vcore::catch(obs) {
+        Ok(r) => r,
+        Err(p) => {
+            st.fail_simple(&format!("panic:{sig}"), case(scheds[0]), format!("panicked: {p}"), size);
+            return;
+        }
+    };
+    st.transitions += 1;
+    if reference.starts_with("INVALID") {
+        st.nontrivial += 1;
+    }
+    for s in &scheds[1..] {
+        set_schedule(*s);
+        st.transitions += 1;
+        let out = vcore::catch(obs).unwrap_or_else(|p| format!("PANIC {p}"));
+        if out != reference {
+            st.fail_simple(
+                &format!("output-depends-on-hash-seed:{sig}"),
+                case(*s),
+                format!("output under seed schedule base={} stride={} differs from schedule 0: {}", s.base, s.stride, first_diff(&reference, &out)),
+                size,
+            );
+            st.outcome(&format!("{sig}: seed-dependent"));
+            set_schedule(scheds[0]);
+            return;
+        }
+    }
+    set_schedule(scheds[0]);
+    st.outcome(&format!("{sig}: identical under all schedules ({})", if reference.starts_with("INVALID") { "diagnostics" } else { "valid" }));
+}
+
+fn run_sweeps(tier: vcore::Tier, st_out: &mut Stats) -> Value {
+    let scheds = sweep_schedules(tier.pick(5, 9));
+    // schema space (C14's): all tiers use the quick space, the thorough tier its k = 2 space too
+    let (st, sb) = checks::schemas::sweep(tier, |c, st| {
+        let text = c.text.to_string();
+        under_schedules(
+            &scheds,
+            &|s| json!({"part": "schema-sweep", "text": text, "schedule": {"base": s.base, "stride": s.stride}}),
+            "schema-sweep",
+            text.len() as u64,
+            &|| observe_schema(&text),
+            st,
+        );
+    });
+    let cur = std::mem::take(st_out);
+    *st_out = cur.merge(st);
+    // executable space (C17's): bases and mutants; the tiny scope in the thorough tier only
+    let envs = checks::execdocs::schema_envs();
+    let tiny_scheds = sweep_schedules(3);
+    let thorough = tier == vcore::Tier::Thorough;
+    let (st, info) = checks::execdocs::sweep(&envs, vcore::Tier::Quick, &|c, st| {
+        let tiny = c.family == "tiny";
+        if tiny && !thorough {
+            return;
+        }
+        let text = c.text.to_string();
+        let env_name = c.env.name.clone();
+        under_schedules(
+            if tiny { &tiny_scheds } else { &scheds },
+            &|s| json!({"part": "exec-sweep", "schema": env_name, "text": text, "schedule": {"base": s.base, "stride": s.stride}}),
+            "exec-sweep",
+            text.len() as u64,
+            &|| observe_exec(&c.env.apollo, &text),
+            st,
+        );
+    });
+    let cur = std::mem::take(st_out);
+    *st_out = cur.merge(st);
+    json!({"schedules": scheds.len(), "schema_space": sb, "executable_space": checks::execdocs::bounds_json(&info),
+           "executable_tiny_scope": if thorough { "included, 3 schedules" } else { "not included in the quick tier" }})
 }
 
 fn run_workload(f: &(dyn Fn() -> String + Sync + Send)) -> String {
@@ -484,12 +650,50 @@ fn schedules(tier: vcore::Tier) -> Vec<Schedule> {
     v
 }
 
+fn replay_sweep_case(case: &Value, st: &mut Stats) {
+    let text = case["text"].as_str().unwrap_or("").to_string();
+    let scheds = sweep_schedules(9);
+    let c2 = case.clone();
+    match case["part"].as_str() {
+        Some("schema-sweep") => under_schedules(&scheds, &|_| c2.clone(), "schema-sweep", text.len() as u64, &|| observe_schema(&text), st),
+        Some("exec-sweep") => {
+            let envs = checks::execdocs::schema_envs();
+            let Some(env) = envs.iter().find(|e| Some(e.name.as_str()) == case["schema"].as_str()) else {
+                vcore::machinery_error("replay: unknown schema environment")
+            };
+            under_schedules(&scheds, &|_| c2.clone(), "exec-sweep", text.len() as u64, &|| observe_exec(&env.apollo, &text), st)
+        }
+        _ => vcore::machinery_error("replay: unknown part"),
+    }
+}
+
 fn child_main() -> ! {
     // natural seeds: the seam is NOT installed
-    for (i, (name, f)) in workloads().iter().enumerate() {
+    let ws = workloads();
+    for (i, (name, f)) in ws.iter().enumerate() {
         let out = run_workload(f.as_ref());
         println!("DIGEST {i} {name} {:016x} {}", fnv(&out), out.len());
     }
+    // the sweep spaces under this process's natural seeds: one digest per case, folded in order
+    let digest = std::sync::Mutex::new(std::collections::BTreeMap::<String, u64>::new());
+    let _ = checks::schemas::sweep(vcore::Tier::Quick, |c, _st| {
+        let out = vcore::catch(|| observe_schema(c.text)).unwrap_or_else(|p| format!("PANIC {p}"));
+        digest.lock().unwrap().insert(format!("s:{}", c.text), fnv(&out));
+    });
+    let envs = checks::execdocs::schema_envs();
+    let _ = checks::execdocs::sweep(&envs, vcore::Tier::Quick, &|c, _st| {
+        if c.family == "tiny" {
+            return;
+        }
+        let out = vcore::catch(|| observe_exec(&c.env.apollo, c.text)).unwrap_or_else(|p| format!("PANIC {p}"));
+        digest.lock().unwrap().insert(format!("e:{}:{}", c.env.name, c.text), fnv(&out));
+    });
+    let d = digest.into_inner().unwrap();
+    let mut h = 0xcbf29ce484222325u64;
+    for (k, v) in &d {
+        h = (h ^ fnv(k) ^ v.rotate_left(17)).wrapping_mul(0x100000001b3);
+    }
+    println!("DIGEST {} sweep-spaces {:016x} {}", ws.len(), h, d.len());
     std::process::exit(0)
 }
 
@@ -507,6 +711,14 @@ fn main() {
     let ws = workloads();
     let scheds = schedules(tier);
 
+    if let Some(c) = chk.replay_case() {
+        if c.get("part").is_some() {
+            let mut st = Stats::default();
+            replay_sweep_case(&c, &mut st);
+            chk.absorb(st);
+            chk.finish_replay();
+        }
+    }
     let replay_filter: Option<String> = chk
         .replay_case()
         .map(|c| c["workload_index"].as_u64().unwrap_or(0).to_string());
@@ -584,6 +796,7 @@ fn main() {
     for wi in 0..ws.len() {
         run_one(wi, &mut st);
     }
+    let sweep_bounds = run_sweeps(tier, &mut st);
 
     // cross-process part: natural seeds
     let k = tier.pick(4usize, 16usize);
@@ -616,9 +829,10 @@ fn main() {
         for (line_a, line_b) in digests[0].iter().zip(d.iter()) {
             if line_a != line_b {
                 let wi: usize = line_a.split(' ').nth(1).and_then(|x| x.parse().ok()).unwrap_or(0);
+                let wname = ws.get(wi).map(|w| w.0).unwrap_or("sweep-spaces");
                 st.fail_simple(
-                    &format!("output-differs-between-processes:{}", ws[wi].0),
-                    json!({"workload": ws[wi].0, "workload_index": wi, "processes": [0, ci]}),
+                    &format!("output-differs-between-processes:{wname}"),
+                    json!({"workload": wname, "workload_index": wi, "processes": [0, ci]}),
                     format!("two fresh processes with natural hash seeds produced different output: {line_a} vs {line_b}"),
                     wi as u64,
                 );
@@ -640,6 +854,7 @@ fn main() {
         "workloads": ws.iter().map(|w| w.0).collect::<Vec<_>>(),
         "seam_self_test": probe,
         "fresh_processes_with_natural_seeds": k,
+        "sweeps": sweep_bounds,
     });
     chk.rule = "state = (workload, hash-seed schedule); every workload is run to completion under every schedule of the family and its complete observable output (type-map order, SDL, introspection JSON, diagnostics as text and JSON, smith text) compared byte-for-byte with schedule 0; plus K fresh processes with natural seeds compared by digest; non-trivial = workloads whose output contains diagnostics".into();
     chk.assumptions = vec![
@@ -649,6 +864,11 @@ fn main() {
     let ws2 = workloads();
     let scheds2 = scheds.clone();
     chk.finish(&move |case| {
+        if case.get("part").is_some() {
+            let mut st = Stats::default();
+            replay_sweep_case(case, &mut st);
+            return !st.failures.is_empty();
+        }
         let wi = case["workload_index"].as_u64().unwrap_or(0) as usize;
         let (_, f) = &ws2[wi.min(ws2.len() - 1)];
         if case.get("processes").is_some() {
